@@ -1,4 +1,5 @@
 import Sif.Proofs.C20Mint
+import Sif.Proofs.C20Rewards
 import Sif.Generated.DispConsts
 /-
   C20 — Policy-driven issuance is bounded.  Property theorems only.
@@ -180,5 +181,137 @@ example : (runBlocks exCfg (fun _ => true) 4 exState).toOption.map (fun s => (s.
     = some (some 1000, 750, 750) := by decide
 example : (runBlocks exCfg (fun _ => false) 4 exState).toOption.map (fun s => (s.bank.bal "eco".toList "rowan".toList, s.bank.bal "disp".toList "rowan".toList))
     = some (750, 0) := by decide
+
+/-! ## (b) AMM depth rewards (model of the tree with fixes/F10.diff applied: `fix = true`)
+
+  Quantifiers: every list of reward periods in the envelope (start ≤ end < 2^62, mod < 2^62,
+  allocation < 2^128 — what `MsgAddRewardPeriodRequest.ValidateBasic` accepts after F5/F13), pairwise
+  non-overlapping; every starting height, accumulator and number of blocks; every behaviour of
+  the pool split, of the transfers and of the burn (`Env`). -/
+
+open Sif.Rewards
+
+/-- the running clamp of `CollectPoolRewardTuples`: never more than the block distribution -/
+theorem rewards_collect_le (bd : Nat) (raws : List Nat) : collect bd raws ≤ bd := collect_le bd raws
+
+/-- the net amount created by `DistributeDepthRewards` never exceeds the block distribution -/
+theorem rewards_distribute_le (bd : Nat) (e : Env) : distribute bd e ≤ bd := distribute_le bd e
+
+/-- `rewards_per_block`, one block: it creates nothing outside a period, nothing on a
+    non-distribution block, at most ⌊alloc/len⌋ in the period's first block, at most
+    mod·⌊alloc/len⌋ on a later distribution block (the shares carried over since the previous
+    one); and the accumulator invariant passes to the next block. -/
+theorem rewards_per_block (periods : List Period) (henv : inEnvelope periods = true)
+    (hd : periodsDisjoint periods) (h accu accu' m : Nat) (e : Env) (hinv : accuInv periods h accu)
+    (hr : endBlock true periods h accu e = .ok (accu', m)) :
+    rewardsBlockOK (currentPeriod periods h) h m = true ∧ accuInv periods (h + 1) accu' :=
+  endBlock_block henv hd e hinv hr
+
+/-- `rewards_per_block` along every history -/
+theorem rewards_per_block_history (periods : List Period) (henv : inEnvelope periods = true)
+    (hd : periodsDisjoint periods) (es : List Env) (h accu a : Nat) (ms : List Nat)
+    (hinv : accuInv periods h accu) (hr : run true periods h accu es = .ok (a, ms)) :
+    blocksOK periods h ms = true := by
+  induction es generalizing h accu ms with
+  | nil => simp only [run] at hr; cases hr; rfl
+  | cons e es ih =>
+    obtain ⟨accu', m, ms', h1, h2, rfl⟩ := run_cons hr
+    obtain ⟨hb, hinv'⟩ := endBlock_block henv hd e hinv h1
+    simp only [blocksOK, hb, Bool.true_and]
+    exact ih (h + 1) accu' ms' hinv' h2
+
+/-- a history that starts with an empty accumulator satisfies the invariant -/
+theorem accuInv_zero (periods : List Period) (h : Nat) : accuInv periods h 0 :=
+  fun _ _ _ _ => Nat.zero_le _
+
+/-- `rewards_per_period`: a period whose first block lies in the history never creates more than
+    its allocation, whatever accumulator the history started with. -/
+theorem rewards_per_period (periods : List Period) (henv : inEnvelope periods = true)
+    (hd : periodsDisjoint periods) (p : Period) (hp : p ∈ periods) (ha : p.alloc ≠ 0)
+    (es : List Env) (h accu a : Nat) (ms : List Nat) (hstart : h ≤ p.start)
+    (hr : run true periods h accu es = .ok (a, ms)) :
+    sumIn p h ms ≤ p.alloc := by
+  have hb := run_budget henv hd hp ha es h accu a ms hr
+  unfold budget at hb
+  rw [if_pos hstart] at hb
+  have : share p * (p.stop - p.start + 1) ≤ p.alloc := Nat.div_mul_le_self _ _
+  omega
+
+/-- `rewards_entitlement`: everything created up to any height plus the accumulator carried at
+    that height never exceeds the initial accumulator plus Σ ⌊alloc/len⌋ of the blocks so far
+    (holds on the pinned tree as well: `fix` is arbitrary). -/
+theorem rewards_entitlement (fix : Bool) (periods : List Period) (henv : inEnvelope periods = true)
+    (es : List Env) (h accu a : Nat) (ms : List Nat) (hr : run fix periods h accu es = .ok (a, ms)) :
+    ms.sum + a ≤ accu + entitled periods h es.length :=
+  run_cumulative fix henv es h accu a ms hr
+
+/-- one block inside the envelope never panics (division by the period length, `sdk.Uint` addition) -/
+theorem rewards_step_no_panic (fix : Bool) (periods : List Period) (henv : inEnvelope periods = true)
+    (h accu : Nat) (e : Env) (hacc : accu < 2 ^ 255) : ∃ r, endBlock fix periods h accu e = .ok r := by
+  cases hc : currentPeriod periods h with
+  | none => exact ⟨_, endBlock_idle_none fix e hc⟩
+  | some p =>
+    by_cases ha : p.alloc = 0
+    · exact ⟨_, endBlock_idle_zero fix e hc ha⟩
+    · exact ⟨_, endBlock_compute fix e hc (curOK_of_current henv hc) ha hacc⟩
+
+/-- Restart: the step reads only the stored accumulator (key 0x0b) and the stored periods, so
+    running the blocks in two pieces, restarting from the stored accumulator in between, is running
+    them in one piece. -/
+theorem rewards_restart (fix : Bool) (periods : List Period) (es1 es2 : List Env) (h accu : Nat) :
+    run fix periods h accu (es1 ++ es2) =
+      (match run fix periods h accu es1 with
+       | .error x => .error x
+       | .ok (a1, ms1) =>
+         match run fix periods (h + es1.length) a1 es2 with
+         | .error x => .error x
+         | .ok (a2, ms2) => .ok (a2, ms1 ++ ms2)) := by
+  induction es1 generalizing h accu with
+  | nil =>
+    simp only [List.nil_append, run, List.length_nil, Nat.add_zero]
+    cases run fix periods h accu es2 with
+    | error x => rfl
+    | ok r => rfl
+  | cons e es ih =>
+    simp only [List.cons_append, run]
+    cases h1 : endBlock fix periods h accu e with
+    | error x => rfl
+    | ok r =>
+      obtain ⟨accu', m⟩ := r
+      simp only
+      rw [ih (h + 1) accu']
+      have e1 : h + 1 + es.length = h + (e :: es).length := by simp; omega
+      rw [e1]
+      cases run fix periods (h + 1) accu' es with
+      | error x => rfl
+      | ok r1 =>
+        obtain ⟨a1, ms1⟩ := r1
+        simp only
+        cases run fix periods (h + (e :: es).length) a1 es2 with
+        | error x => rfl
+        | ok r2 => rfl
+
+/-! ### F10: the pinned tree (`fix = false`) violates the per-block and per-period clauses -/
+
+def f10Periods : List Period := [⟨1, 10, 1000, 4⟩, ⟨11, 20, 1000, 1⟩]
+def f10Envs : List Env := List.replicate 20 ⟨true, [1000000], 0⟩
+
+/-- DESIGN 4/C20 witness on the unrepaired model: block 11 creates 200 (twice its share) and
+    period 2 creates 1100 > 1000 … -/
+theorem f10_unfixed_violates :
+    (run false f10Periods 1 0 f10Envs).toOption.map (fun r =>
+      (r.2.getD 10 0, sumIn ⟨11, 20, 1000, 1⟩ 1 r.2, blocksOK f10Periods 1 r.2)) = some (200, 1100, false) := by
+  decide
+
+/-- … and the repaired model does not, on the same inputs -/
+theorem f10_fixed_ok :
+    (run true f10Periods 1 0 f10Envs).toOption.map (fun r =>
+      (r.2.getD 10 0, sumIn ⟨11, 20, 1000, 1⟩ 1 r.2, blocksOK f10Periods 1 r.2)) = some (100, 1000, true) := by
+  decide
+
+/- non-vacuity of the hypotheses -/
+example : inEnvelope f10Periods = true := by decide
+example : periodsDisjoint f10Periods := by decide
+example : (⟨11, 20, 1000, 1⟩ : Period) ∈ f10Periods := by decide
 
 end Sif.Props.C20
